@@ -58,10 +58,17 @@ type c06RT struct {
 func evalC06RT(c c06RT, o *Obs) error {
 	p := nets[c.Net].Params
 	priv, _ := bchec.PrivKeyFromBytes(bchec.S256(), c.Scalar)
-	w, err := bchutil.NewWIF(priv, p, c.Compress)
+	// the caller's Params value is its own: what it does with it after NewWIF is not the key's business
+	own := *p
+	w, err := bchutil.NewWIF(priv, &own, c.Compress)
 	if err != nil {
 		return fmt.Errorf("NewWIF failed: %v", err)
 	}
+	if c.Scalar[31]%2 == 1 {
+		_ = w.String()
+	}
+	own.PrivateKeyID ^= 0x5a
+	own.Name = "edited"
 	o.NT()
 	lz := 0
 	for lz < 32 && c.Scalar[lz] == 0 {
